@@ -11,7 +11,7 @@ from __future__ import annotations
 import ast
 
 from .. import flow
-from ..astutil import body_walk, call_name, call_recv, calls_in, kwarg, names_in, norm, strip_await, walk_no_nested
+from ..astutil import atom_polarity, body_walk, call_name, call_recv, calls_in, kwarg, names_in, norm, strip_await, walk_no_nested
 from ..loader import AnalysisError
 from .common import dispatch_targets, parmap, where
 
@@ -71,7 +71,8 @@ def _gate_order(ctx, fi, state_pred, what):
         ctx.paths_explored += 1
         # false arm cannot reach authenticate:  test is `not check_allow(..)`: true-edge = denied
         t = g.nodes[chk[0]].ast
-        denied_label = "true" if isinstance(t, ast.UnaryOp) and isinstance(t.op, ast.Not) else "false"
+        pos = atom_polarity(t, lambda x: isinstance(x, ast.Call) and call_name(x) == "check_allow")
+        denied_label = "false" if pos else "true"  # `if not check_allow(..)`: the body (true edge) is the refusal
         denied_succ = [e.dst for e in g.out[chk[0]] if e.label == denied_label]
         seen = flow.reach(g, denied_succ, flow.NORMAL)
         leak = auth[0] in seen
@@ -247,6 +248,17 @@ def r18_4(ctx):
         ctx.ok("R18.4", where(ca), "expired entries are purged before the thresholds are tested")
     else:
         ctx.bad("R18.4", ca.module, ca.qual, " -> ".join(kinds), "thresholds are tested before expired entries are purged", ca.node.lineno)
+    nonbool = [r for r in body_walk(ca.node) if isinstance(r, ast.Return) and not (isinstance(r.value, ast.Constant) and isinstance(r.value.value, bool))]
+    if nonbool:
+        ctx.bad("R18.4", ca.module, ca.qual, norm(nonbool[0]), "check_allow returns something other than True/False: callers test `not check_allow(...)`, so a None result refuses an attempt that is under both thresholds", nonbool[0].lineno)
+    else:
+        ctx.ok("R18.4", where(ca), "every return of check_allow is a literal True/False", nontrivial=False)
+    # the early-out for keys without any recorded failure must allow
+    first_ifs = [s_ for s_ in ca.node.body if isinstance(s_, ast.If) and norm(s_.test) == want_e]
+    for s_ in first_ifs:
+        r = [b for b in s_.body if isinstance(b, ast.Return)]
+        if r and not (isinstance(r[0].value, ast.Constant) and r[0].value.value is True):
+            ctx.bad("R18.4", ca.module, ca.qual, f"if {want_e}: {norm(r[0])}", "an attempt with no recorded failure for either key is not allowed", r[0].lineno)
     last = ca.node.body[-1]
     if isinstance(last, ast.Return) and isinstance(last.value, ast.Constant) and last.value.value is True:
         ctx.ok("R18.4", where(ca), "an attempt at or below both thresholds is allowed (final return True)", nontrivial=False)
@@ -263,7 +275,13 @@ def r18_4(ctx):
     lnow = pl.name("now")
     t = norm(lf.node, 6000)
     for key, var, tab in (("user", luser, "BAD_USER_AUTHS"), ("addr", laddr, "BAD_IP_AUTHS")):
-        if f"{tab}[{var}] = ({tab}[{var}][0] + 1, {lnow})" in t and f"{tab}[{var}] = (1, {lnow})" in t:
+        shapes = [
+            f"if {var} in {tab}:\n    {tab}[{var}] = ({tab}[{var}][0] + 1, {lnow})\nelse:\n    {tab}[{var}] = (1, {lnow})",
+            f"if {var} not in {tab}:\n    {tab}[{var}] = (1, {lnow})\nelse:\n    {tab}[{var}] = ({tab}[{var}][0] + 1, {lnow})",
+            f"{tab}[{var}] = ({tab}.get({var}, (0, 0))[0] + 1, {lnow})",
+            f"{tab}[{var}] = ({tab}.get({var}, (0, 0.0))[0] + 1, {lnow})",
+        ]
+        if any(pm_of(p, lf).has(sh) for sh in shapes):
             ctx.ok("R18.4", where(lf), f"{key}: failure count +1 (or 1) and last-failure time = now")
         else:
             ctx.bad("R18.4", lf.module, lf.qual, f"{tab} update", f"login_failed no longer adds exactly one failure stamped `now` to {tab}", lf.node.lineno)
